@@ -74,9 +74,15 @@ if kind == "ignore_term":
     signal.signal(signal.SIGTERM, signal.SIG_IGN)
 if spec.get("on_term") is not None:            # a clean SIGTERM handler: ends with THIS exit status (0 is "success")
     signal.signal(signal.SIGTERM, lambda *a: os._exit(spec["on_term"]))
-if spec.get("self_exit") is not None:          # ends by itself after a while, with this exit status
-    signal.signal(signal.SIGALRM, lambda *a: os._exit(spec["self_exit"][1]))
-    signal.setitimer(signal.ITIMER_REAL, spec["self_exit"][0])
+if spec.get("self_exit") is not None and kind in ("flood", "never_reads", "close_stdin"):
+    # ends by itself, with this exit status, when it is TOLD to (a "die" line on stdin) - children that do not read
+    # their stdin in the main loop watch it from a thread
+    import threading
+    def watch():
+        for line in iter(sys.stdin.buffer.readline, b""):
+            if b'"die"' in line:
+                os._exit(spec["self_exit"])
+    threading.Thread(target=watch, daemon=True).start()
 if "term_delay" in spec:                       # reacts to SIGTERM, but only after a while
     def on_term(*a):
         time.sleep(spec["term_delay"])
@@ -85,6 +91,18 @@ if "term_delay" in spec:                       # reacts to SIGTERM, but only aft
 if spec.get("stderr"):
     sys.stderr.write("child says %s {0} on stderr\n" * 50)
     sys.stderr.flush()
+if spec.get("stderr_flood") == "always":       # a diagnostic stream nobody may be reading, all the time
+    import threading
+    def spew():
+        while True:
+            os.write(2, b"stderr noise %s {0}\n" * 3000)
+    threading.Thread(target=spew, daemon=True).start()
+if spec.get("stderr_flood") == "on_term":      # a long shutdown report on stderr, then a clean exit
+    def report(*a):
+        for _ in range(8):
+            os.write(2, b"shutdown report line\n" * 3200)      # 8 x ~64 KiB
+        os._exit(spec.get("on_term") or 0)
+    signal.signal(signal.SIGTERM, report)
 if spec.get("chatty"):                         # lines that carry nothing, and an answer nobody asked for
     raw(b"\n\n   \n# not json\n[]\n{}\nnull\n\xe2\x80\xa8\n%s %d {0}\r\n")
     out({"jsonrpc": "2.0", "id": "nobody", "result": {"echo": "unsolicited"}})
@@ -128,6 +146,8 @@ while True:
         m = json.loads(line)
     except Exception:
         continue
+    if isinstance(m, dict) and m.get("method") == "die" and spec.get("self_exit") is not None:
+        os._exit(spec["self_exit"])            # told to end by itself, with this exit status
     if not isinstance(m, dict) or "id" not in m or "method" not in m:
         continue
     if m["method"] != "initialize":
@@ -249,7 +269,7 @@ class Boom(Exception):
 
 
 CHILD_KEYS = ("k", "code", "junk", "delay", "linger", "close_after", "term_delay", "stderr", "chatty", "falsy_result",
-              "on_term", "self_exit")
+              "on_term", "self_exit", "stderr_flood")
 
 
 async def _scenario(case, tmp, obs):
@@ -421,6 +441,13 @@ async def _scenario(case, tmp, obs):
             await queue_backlog(w)
             await anyio.sleep_forever()
         await queue_backlog(w)
+        if case.get("self_exit") is not None:
+            # the child ends BY ITSELF before the exit begins: it is told to now, and we wait until it is gone
+            await w.send(JSONRPCMessage(jsonrpc="2.0", method="die", params={}))
+            t_die = time.monotonic()
+            while scan(tmp, me)[0] and time.monotonic() - t_die < READY_TIMEOUT_S:
+                await anyio.sleep(0.02)
+            await anyio.sleep(0.05)
         if path in ("cancel", "timeout"):
             arm(scope, 0.05)
             await anyio.sleep_forever()
@@ -489,7 +516,7 @@ async def _scenario(case, tmp, obs):
 
             async def ask(i):
                 c, sp, rec = cs[i], specs[i], recs[i]
-                t = 1.5 if answers(dict(sp), 1) else 0.7
+                t = ANSWER_TIMEOUT_S if answers(dict(sp), 1) else 0.7     # never a wait that load could turn into a timeout
                 try:
                     if case.get("req_api", "legacy") == "legacy":
                         with anyio.fail_after(t):
@@ -563,6 +590,8 @@ async def _scenario(case, tmp, obs):
             else:
                 obs["exit_exc"] = type(ex).__name__
 
+    holder_task = {}
+
     async def watchdog(scope):
         """an exit that is still running HANG_AFTER_MS after it began is unbounded for our purposes: note it,
         then release it by killing the child (what a user would have to do), as a last resort cancel it"""
@@ -572,8 +601,14 @@ async def _scenario(case, tmp, obs):
             if t is not None and (time.monotonic() - t) * 1000 > HANG_AFTER_MS:
                 obs["hang"] = True
                 kill_tagged(tmp)
-                await anyio.sleep(4.0)
+                await anyio.sleep(2.0)
                 scope.cancel()
+                # an exit stuck INSIDE its cancellation shield does not see that either: cancel the task natively
+                for _ in range(20):
+                    await anyio.sleep(0.5)
+                    t_ = holder_task.get("task")
+                    if t_ is not None and not t_.done():
+                        t_.cancel()
                 return
 
     worst = None
@@ -584,6 +619,8 @@ async def _scenario(case, tmp, obs):
         hang0 = obs["hang"]
         obs["hang"] = False
         async def session_task():
+            import asyncio
+            holder_task["task"] = asyncio.current_task()
             async with anyio.create_task_group() as outer:
                 with anyio.CancelScope() as run_scope:
                     outer.start_soon(watchdog, run_scope)
